@@ -123,8 +123,9 @@ func (d *Decoder) decodeSlice(pkt *rtp.Packet) ([]byte, error) {
 
 		d.fragmentsSize += len(pkt.Payload[4:])
 
-		if d.fragmentsSize > maxFrameSize {
-			errSize := d.fragmentsSize
+		// slices already buffered for this frame count too
+		if (d.sliceBufferSize + d.fragmentsSize) > maxFrameSize {
+			errSize := d.sliceBufferSize + d.fragmentsSize
 			d.resetFragments()
 			return nil, fmt.Errorf("frame size (%d) is too big, maximum is %d",
 				errSize, maxFrameSize)
@@ -148,8 +149,9 @@ func (d *Decoder) decodeSlice(pkt *rtp.Packet) ([]byte, error) {
 
 		d.fragmentsSize += len(pkt.Payload[4:])
 
-		if d.fragmentsSize > maxFrameSize {
-			errSize := d.fragmentsSize
+		// slices already buffered for this frame count too
+		if (d.sliceBufferSize + d.fragmentsSize) > maxFrameSize {
+			errSize := d.sliceBufferSize + d.fragmentsSize
 			d.resetFragments()
 			return nil, fmt.Errorf("frame size (%d) is too big, maximum is %d",
 				errSize, maxFrameSize)
